@@ -121,7 +121,8 @@ def raw_state(d):
     return ([[(so.operation.operation_id, so.start_time, so.machine_id) for so in lst]
              for lst in d.schedule.schedule],
             list(d.machine_next_available_time), list(d.job_next_available_time),
-            list(d.job_next_operation_index), [id(x) for x in d.subscribers])
+            list(d.job_next_operation_index), [id(x) for x in d.subscribers],
+            id(d.ready_operations_filter))
 
 
 def run_blind_case(ctx, case):
@@ -224,6 +225,36 @@ def run_dispatcher_case(ctx, case):
             if A.r.scheduled() and A.r.unscheduled():
                 nontrivial += 1
                 ctx.distinct.add(f"{hash((gen.fingerprint(inst), tuple(A.r.history), kind, o, m))}")
+        # ---- the same kinds of request issued through a rule solver's step(): a user-written
+        # machine chooser that answers with a machine the operation is not eligible for
+        if not A.done():
+            from job_shop_lib.dispatching.rules import DispatchingRuleSolver
+
+            def bad_chooser(dispatcher, operation):
+                inel = [mm for mm in range(A.r.num_machines + 1) if mm not in operation.machines]
+                return inel[0]      # the smallest such id (it may look like a list index)
+            bad_solver = DispatchingRuleSolver(
+                "shortest_processing_time", bad_chooser,
+                ready_operations_filter=[None, "dominated_operations"][pos % 2])
+            before = _snap.dispatcher_state(A.d)
+            upd = spy.updates
+            raised = None
+            try:
+                bad_solver.step(A.d)
+            except Exception as e:
+                raised = type(e).__name__
+            ctx.count("injections"); ctx.count("kind_solver_step_with_ineligible_machine")
+            w = {"fault": "solver.step with a machine chooser returning an ineligible machine",
+                 "position": pos, "history": list(A.r.history), "raised": raised}
+            if raised is None:
+                ctx.violation("c09_invalid_request_accepted", w)
+                return
+            after = _snap.dispatcher_state(A.d)
+            if before != after:
+                w["changed"] = _snap.diff_keys(before, after)[:12]
+                ctx.violation("c09_state_changed_by_rejected_request", w)
+            if spy.updates != upd:
+                ctx.violation("c09_observers_notified_on_rejection", w)
         if A.done():
             break
         # ---- valid step on both twins
@@ -235,6 +266,7 @@ def run_dispatcher_case(ctx, case):
         sa, sb = _snap.dispatcher_state(A.d), _snap.dispatcher_state(B.d)
         # subscribers differ by identity and A has one extra spy: compare by value
         sa.pop("subscribers"); sb.pop("subscribers")
+        sa.pop("configured_filter", None); sb.pop("configured_filter", None)
         sa["observers"] = [s for s in sa["observers"] if s["type"] != "_Spy"]
         traceA.append(sa); traceB.append(sb)
     ctx.count("twin_comparisons")
@@ -277,7 +309,7 @@ def make_env(inst, filt, rng):
 def env_snapshot(env, subscribers=False):
     st = _snap.dispatcher_state(env.dispatcher)
     if not subscribers:
-        st.pop("subscribers")   # object identities: comparable only within one environment
+        st.pop("subscribers"); st.pop("configured_filter", None)   # object identities: comparable only within one environment
     else:
         st["subscriber_types"] = [type(x).__name__ for x in env.dispatcher.subscribers]
     st["obs"] = _snap.obs_state(env.get_observation())
